@@ -150,6 +150,16 @@ func vfC10Run(cs vfC10Case, res *vfC10Res) string {
 	}
 	res.outcome = "stopped"
 	res.midway = true
+	if cs.Initiator == "ui" && strings.HasPrefix(run.serverMsg, "Interrupted") && cs.Ev.Dir == "s2c" && cs.Ev.K == 0 && !sc.Sess.Tunnel {
+		// the user's Ctrl-C came while the trigger was still on its way through the client: no transfer existed there yet, so the
+		// key went to the remote side like any other key and the server, still waiting for the action, reports the interrupt in
+		// its own word. That is a stop report (nothing has been created yet); the stop / delete question is never asked.
+		res.outcome = "interrupted_before_the_client_had_a_transfer"
+		if len(after) != len(e.preSnap) {
+			return fmt.Sprintf("interrupted in the handshake but the destination changed (%s)", run.describe())
+		}
+		return ""
+	}
 	if !strings.HasPrefix(run.serverMsg, "Stopped") {
 		res.outcome = "other_error"
 		return fmt.Sprintf("the server reported neither stopped nor success: %s", run.describe())
@@ -218,7 +228,7 @@ func TestVF_C10(t *testing.T) {
 	stride := vfEnvInt("VERIF_C10_STRIDE", 1)
 	nscen := vfEnvInt("VERIF_C10_SCENARIOS", 99)
 	seed := vfEnvInt("VERIF_SEED", 1)
-	for si, sc := range vfScenarios() {
+	for si, sc := range append(vfScenarios(), vfTunnelScenarios()...) {
 		if si >= nscen {
 			break
 		}
